@@ -1,6 +1,8 @@
 import Autd3.Model.Fw
 import Autd3.Lemmas.SwapWF
 import Autd3.Lemmas.FwExamples
+import Autd3.Lemmas.FwTraceWitness
+import Autd3.Lemmas.FwTraceF17
 /-!
 # C19 — the firmware model never aborts on anything the SDK can send
 First layer: the swap chain's `set` never leaves it in the state its `update` declares unreachable,
@@ -227,5 +229,179 @@ example : ∃ s' ack, writeMod wfExample modPayload = .ok (s', ack) ∧ FwWF s' 
   writeMod_safe _ _ wfExample_wf wfExample_settled modPayload_ok
 example : ∃ s', ecatRecv wfExample gainSwapFrame = .ok s' ∧ FwWF s' :=
   no_panic_single _ _ wfExample_wf wfExample_settled gainSwapFrame_ok
+
+
+/-! ## (7) trace level: the inductive invariant `Safe`, the restriction, `no_panic_trace_partial`
+
+Full statement wanted (DESIGN section 5): `SdkTrace tr → run power_on tr ≠ panic` for every interleaving of SDK frames,
+clock updates and read-backs.  It is FALSE on the current tree (F15, F17, F18, all recorded) and false for two more
+read-back shapes found while proving this section (`stale_index_drives_out_of_range`, `zero_sound_speed_div_zero`).
+Proved instead, for all traces, states and payload bytes (induction, no bounds):
+
+* `Safe s = Base s ∧ Chain s` (Lemmas/FwTraceCore.lean).
+  `Base`: BRAM shapes, `numTr ≤ 256`, no `*_SET` bit in the internal flag word, the four sampling divisions `≥ 1`, the
+  four cycle registers 16-bit, modulation write page `≤ 1`, CPU foci count in `1..8`, foci-count registers `≤ 8`, a segment in
+  focus mode has non-zero sound speed and foci count, and for both swap chains `cur, req ≤ 1`, divisions/cycles `≥ 1`,
+  cycles `≤ 65536`, `cur_idx < 65536`.
+  `Chain`: `SwapWF` of both swap chains (pending ⇒ waitable mode, target ≠ current; start offsets within cycles) and
+  `(cycle register + 1) × foci per pattern ≤ 65536`, `swap-chain cycle × foci per pattern ≤ 65536` for both STM segments.
+* **alphabet** (`EvOK`, `FrameOKs`, `PayloadOK`; decidable): what the SDK's packers guarantee.  Per payload: segment
+  `≤ 1`; sampling division `≥ 1`; a real transition mode (GPIO pin `< 4`) whenever the TRANSITION flag is set on an END frame;
+  FociSTM BEGIN: `1 ≤ foci per pattern ≤ 8`, sound speed `≥ 1`; a continuation frame continues the write in progress (its
+  segment is the write-segment register; STM write page `≤ 15`; FociSTM: the segment's foci register is the CPU's count and
+  the total stays `≤ 65536` foci; GainSTM: total `≤ 1024` patterns; Modulation: size field `≤ 32768`); second-slot offset
+  inside the frame.  No condition at all on configuration tags, Clear, unknown tags, payload data bytes, loop counts,
+  transition values, clock times (monotone or not), message ids.  Both slots of a frame may carry any operation.
+* **finding exclusions** (`EvExcl`, `FrameExcl`, `PayloadExcl`; decidable; only about the `Swapchain::set` a frame
+  triggers, the FociSTM BEGIN block, and read-backs):
+  - **F15 shape** (`SetGuard.f15`): a request with mode Ext/Immediate and a finite loop whose segment is not the swap
+    chain's actual current segment (the CPU lets it through exactly when its *belief* is that segment: a transition to it
+    is still pending, or Ext flipped away from it, or the send that moved the belief was cut / missed its SysTime).
+  - **F18 shape** (`SetGuard.f18`): a request (any mode, incl. the ones issued by Gain and Clear) for the swap chain's
+    current segment while a transition is pending whose target segment has a stale start offset
+    (`tic_idx_offset[req] > cycle[req]`).
+  - **F17 shape** (`FociExcl.f17s/f17r`): an accepted FociSTM BEGIN frame whose foci-per-pattern count times the cycle the
+    swap chain still plays for that segment, or times the segment's cycle register, exceeds 65536.  (Also excludes the
+    harmless case that the same frame ends with an accepted transition that would overwrite the cycle.)
+  - **stale index (new)** (`Fresh`): a read-back is preceded by a clock update since the last accepted STM request
+    (`Swapchain::set` moves `cur`/`cycle`, not `cur_idx`).
+  Missing for the full statement: the CPU's "current segment" would have to be the swap chain's (F15/F18), the foci count
+  latched with the cycle (F17), `set` would have to reset `cur_idx`, and the packer reject a zero sound speed. -/
+
+/-- `Swapchain::set` NEVER panics when divisions and cycles are non-zero — for any request, any mode, pending or not — and
+keeps the unconditional part of the invariant; it keeps `SwapWF` under `SetGuard` (strictly weaker than `SetOK` of
+`swap_set_preserves`: a pending transition may be overridden if the target's start offset is not stale) -/
+theorem swap_set_no_panic (w : Swap) (t rep fd cyc req : Nat) (m : TMode) (mode : Nat) (hb : SwapBase w)
+    (hreq : req ≤ 1) (hfd : 1 ≤ fd) (hc1 : 1 ≤ cyc) (hc2 : cyc ≤ 65536)
+    (hm : m.waitable = false → mode = Autd3.Gen.Cpu.TRANSITION_MODE_EXT ∨ mode = Autd3.Gen.Cpu.TRANSITION_MODE_IMMEDIATE) :
+    ∃ w', w.set t rep fd cyc req m = .ok w' ∧ SwapBase w' ∧ w'.curIdx = w.curIdx ∧
+      w'.cycle = setSel w.cycle req cyc ∧ (SwapWF w → SetGuard w req rep mode → SwapWF w') :=
+  set_step w t rep fd cyc req m mode hb hreq hfd hc1 hc2 hm
+
+/-- **`Safe power_on`**: `CPUEmulator::new(_, numTr)`, `numTr ≤ 256`, any wall clock, never panics and is `Safe` -/
+theorem power_on_safe (numTr now : Nat) (hn : numTr ≤ 256) : ∃ s, Fw.new numTr now = .ok s ∧ Safe s :=
+  new_safe' numTr now hn
+
+/-- **memory bounds and handler safety without any restriction on transitions**: from a `Base` state, `handle_payload`
+returns `.ok` for EVERY tag and every alphabet payload — first, middle and last frames of Modulation / FociSTM / GainSTM
+writes, Gain, the four segment swaps, Clear, all configuration tags, unknown tags; any data bytes; accepted or refused;
+whatever transition is pending — so no `Memory::write` leaves its BRAM, no `unreachable!()`, no overflow, no division by
+zero inside a handler; `Base` is kept.  (All panics of the unchanged tree sit in `update` and `drives`.)
+`Chain` is kept under the finding exclusions -/
+theorem payload_no_panic_all (s : State) (d : Array Nat) (hB : Base s) (hp : PayloadOK s d) :
+    ∃ s' ack, handlePayload s d = .ok (s', ack) ∧ Base s' ∧ (Chain s → PayloadExcl s d → Chain s') :=
+  payload_step s d hB hp
+
+/-- in particular the out-of-range branches of `Memory::write` (`.index _`) are unreachable -/
+theorem payload_never_index_error (s : State) (d : Array Nat) (hB : Base s) (hp : PayloadOK s d) (site : String) :
+    handlePayload s d ≠ .error (.index site) := by
+  obtain ⟨s', ack, e, _⟩ := payload_step s d hB hp
+  rw [e]; intro h; cases h
+
+/-- one frame (one or two slots, any two operations): `ecat_recv` never panics from a `Base` state, keeps `Base`, and keeps
+`Chain` under the frame's finding exclusions -/
+theorem frame_no_panic (s : State) (frame : Array Nat) (hB : Base s) (hf : FrameOKs s frame) :
+    ∃ s', ecatRecv s frame = .ok s' ∧ Base s' ∧ (Chain s → FrameExcl s frame → Chain s') :=
+  ecatRecv_step s frame hB hf
+
+/-- **unrestricted frame sequences**: any sequence of alphabet frames — including the F15, F17 and F18 histories — is
+handled without panic and without an out-of-bounds BRAM write, from any `Base` state -/
+theorem no_panic_frames (fs : List (Array Nat)) (s : State) (h : Base s) (hr : FramesOK s fs) :
+    ∃ s', fs.foldlM ecatRecv s = .ok s' ∧ Base s' :=
+  frames_safe fs s h hr
+
+/-- a clock update never panics from a `Safe` state, at any time, keeps `Safe` and makes the STM index `Fresh` -/
+theorem update_safe (s : State) (t : Nat) (h : Safe s) :
+    ∃ s', updateWithSysTime s t = .ok s' ∧ Safe s' ∧ Fresh s' :=
+  updateWithSysTime_step s t h
+
+/-- `drives()` never panics from a `Safe` state with a `Fresh` STM index: every focus record read lies inside the STM
+BRAM, sound speed and foci count are non-zero -/
+theorem drives_no_panic (s : State) (h : Safe s) (hf : Fresh s) : ∃ v, Obs.drives s = .ok v :=
+  drives_ok s h hf
+
+/-- `modulation()` never panics from a `Base` state (no exclusion needed) -/
+theorem modulation_no_panic (s : State) (h : Base s) : ∃ v, Obs.modulation s = .ok v :=
+  modulation_ok s h
+
+/-- **no_panic_trace_partial**: from a `Safe` state every `Restricted` trace of frames, clock updates and read-backs
+of the current output runs without panic and ends in a `Safe` state -/
+theorem no_panic_trace_partial (tr : List TEv) (s : State) (h : Safe s) (hr : Restricted s tr) :
+    ∃ s', tr.foldlM runT s = .ok s' ∧ Safe s' :=
+  trace_safe tr s h hr
+
+/-- the same from power-on -/
+theorem no_panic_trace_from_power_on_partial (numTr now : Nat) (hn : numTr ≤ 256) (tr : List TEv)
+    (hr : ∀ s, Fw.new numTr now = .ok s → Restricted s tr) :
+    ∃ s', (Fw.new numTr now >>= fun s => tr.foldlM runT s) = .ok s' ∧ Safe s' := by
+  obtain ⟨s, e, h⟩ := new_safe' numTr now hn
+  obtain ⟨s', e', h'⟩ := trace_safe tr s h (hr s e)
+  exact ⟨s', by rw [e]; exact e', h'⟩
+
+/-! ### the excluded shapes are real (kernel-checked runs of the model) -/
+
+/-- the F15 history consists of alphabet frames only (so `no_panic_frames` covers it: no handler panics) but violates
+`SetGuard.f15`, and the clock update after it reaches `unreachable!()` -/
+theorem f15_trace_outside_restriction :
+    FramesOKFromPowerOn f15Frames ∧ ¬ RestrictedFromPowerOn (f15Frames.map TEv.frame) ∧
+    acksFromPowerOn (f15Frames.map TEv.frame ++ [.tick 5]) =
+      ([1, 2], some (.unreachable "Swapchain::update: WaitStart with Ext/Immediate")) := by
+  decide +kernel
+
+/-- **the F17 panic in general**: whenever the current STM segment is in focus mode, the device has a transducer, and
+`cur_idx × foci per pattern` points beyond the BRAM (4 words per focus record), `drives()` aborts with a slice index out
+of range — exactly what `Chain.fcs` together with `Fresh` excludes -/
+theorem drives_index_panic (s : State) (hmode : Obs.isStmGainMode s s.stmSwap.cur = false) (hnt : 1 ≤ s.numTr)
+    (hn : 1 ≤ Obs.numFoci s s.stmSwap.cur)
+    (hb : 4 * (s.stmSwap.curIdx * Obs.numFoci s s.stmSwap.cur) + 4 > (Obs.stmMem s s.stmSwap.cur).size) :
+    Obs.drives s = .error (.index "foci_stm_drives: stm_bram") :=
+  drives_index_error s hmode hnt hn hb
+
+/-- **F17 is real in the model** (`f17Pre`, Lemmas/FwTraceF17.lean): power-on; a 65536-pattern single-focus FociSTM to S0
+with an Immediate transition (BEGIN frame, the 884 middle frames replaced by their effect on `stm_write` and the write page,
+END|TRANSITION frame); a complete FociSTM of 2 patterns × 8 foci to the SAME segment WITHOUT transition (alphabet frame,
+acknowledged; violates `FociExcl.f17s`); clock at 50 s.  The history runs, and `drives()` then indexes outside the STM BRAM
+(register facts by kernel evaluation, BRAM size from `Base` along the history) -/
+theorem f17_drives_out_of_range :
+    ∃ s, f17Pre = .ok s ∧ Obs.drives s = .error (.index "foci_stm_drives: stm_bram") :=
+  f17_run
+
+/-- **new finding, "stale index"** (same call site and oracle key as F17, different shape): the same 65536-pattern FociSTM
+plays in S0 at pattern index 50000; a complete FociSTM of 2 patterns × 8 foci goes to S1 with an Immediate transition —
+accepted, `Swapchain::set` makes S1 current at once but leaves `cur_idx = 50000`; `drives()` BEFORE the next clock update
+indexes outside the STM BRAM.  All frames satisfy the alphabet and the F15/F17/F18 exclusions; only `Fresh` fails -/
+theorem stale_index_drives_out_of_range :
+    ∃ s, stalePre = .ok s ∧ Obs.drives s = .error (.index "foci_stm_drives: stm_bram") :=
+  stale_run
+
+/-- **new finding, zero sound speed, in general**: current segment in focus mode with sound-speed register 0 and an
+index inside the BRAM: `drives()` divides by zero (`FociOK.ss` excludes such BEGIN frames from the alphabet) -/
+theorem zero_sound_speed_div_zero (s : State) (hmode : Obs.isStmGainMode s s.stmSwap.cur = false) (hnt : 1 ≤ s.numTr)
+    (hn : 1 ≤ Obs.numFoci s s.stmSwap.cur) (hc : Obs.soundSpeed s s.stmSwap.cur = 0)
+    (hb : 4 * (s.stmSwap.curIdx * Obs.numFoci s s.stmSwap.cur) + 4 ≤ (Obs.stmMem s s.stmSwap.cur).size) :
+    Obs.drives s = .error (.divZero "foci_stm_drives: sound_speed") :=
+  drives_div_zero s hmode hnt hn hc hb
+
+/-- … and such a state is reached by ONE acknowledged frame from power-on: a complete FociSTM whose header carries sound
+speed 0 (`Device::sound_speed` below 7.8 mm/s rounds to 0 in the packer), Immediate, then a clock update (kernel-checked):
+S0 current, focus mode, sound-speed register 0, one focus per pattern, index < 2 -/
+theorem zero_sound_speed_reachable :
+    fromM zssPre (fun s => s.stmSwap.cur = 0 ∧ rd s.ctl 89 = 0 ∧ rd s.ctl 91 = 0 ∧ rd s.ctl 93 = 1 ∧
+      s.stmSwap.curIdx < 2 ∧ s.numTr = 249 ∧ s.ack = 1) :=
+  zss_facts
+
+/-! ### non-vacuity of the trace theorems -/
+
+/-- a concrete history with a pending finite-loop transition, a multi-frame Modulation with transition, a refused swap,
+a Gain with update, clock updates and read-backs satisfies `Restricted` from power-on … -/
+example : RestrictedFromPowerOn legalTraceA := legalTraceA_ok
+
+/-- … and so runs without panic, ending `Safe` -/
+example : ∃ s', (Fw.new 249 0 >>= fun s => legalTraceA.foldlM runT s) = .ok s' ∧ Safe s' :=
+  no_panic_trace_from_power_on_partial 249 0 (by omega) legalTraceA
+    (fun s e => fromM_ok (P := fun s => Restricted s legalTraceA) legalTraceA_ok e)
+
+/-- a three-frame GainSTM with a GPIO transition and a finite loop, clock, read-back, Clear, clock, read-back -/
+example : RestrictedFromPowerOn legalTraceB := legalTraceB_ok
 
 end Autd3.C19
